@@ -97,6 +97,14 @@ func genTrack(t *rapid.T) Track {
 		if rapid.IntRange(0, 3).Draw(t, "altfrac") == 0 {
 			alt = math.Min(10000, alt+rapid.Float64Range(0, 0.999).Draw(t, "frac"))
 		}
+		// outside the format's range (the statement: "clamped to the format's range"):
+		// below ground, above the ceiling, and just beside either bound
+		if rapid.IntRange(0, 5).Draw(t, "altout") == 0 {
+			alt = rapid.SampledFrom([]float64{-1, -0.5, -0.999, -1000, -123456, -1e12, 10000.5, 10001, 12345.75, 99999, 100000, 1e7, 1e12}).Draw(t, "altoutv")
+			if rapid.Bool().Draw(t, "altrand") {
+				alt = float64(rapid.IntRange(-200000, 200000).Draw(t, "altany")) + rapid.SampledFrom([]float64{0, 0.25, 0.5}).Draw(t, "altanyfrac")
+			}
+		}
 		tr.Fixes = append(tr.Fixes, [4]model.F{
 			model.Of(genAngle(t, 180, "lon")), model.Of(genAngle(t, 90, "lat")), model.Of(alt), model.Of(cur),
 		})
@@ -182,8 +190,11 @@ func clip(s string) string {
 func classifyTrack(tr Track) ([]string, bool) {
 	cl := []string{}
 	nt := false
-	crossesDay, before2000, boundary := false, false, false
+	crossesDay, before2000, boundary, clamped := false, false, false, false
 	for i, f := range tr.Fixes {
+		if a := f[2].V(); a < 0 || a > 10000 {
+			clamped = true
+		}
 		ts := int64(f[3].V())
 		if ts < unix(2000, 1, 1, 0, 0, 0) {
 			before2000 = true
@@ -205,6 +216,10 @@ func classifyTrack(tr Track) ([]string, bool) {
 	}
 	if boundary {
 		cl = append(cl, "boundary-angle")
+		nt = true
+	}
+	if clamped {
+		cl = append(cl, "altitude-clamped")
 		nt = true
 	}
 	if len(tr.Fixes) == 0 {
